@@ -20,7 +20,9 @@ def run():
     for cfg, what in (("StopStateImpl_no_recheck.cfg", "second winner"),
                       ("StopStateImpl_no_recheck_cb.cfg", "callback registered after the stop never runs"),
                       ("StopStateImpl_no_spin_recheck.cfg", "second winner after waiting for a registration"),
-                      ("StopStateImpl_os_ids_equal.cfg", "destructor does not wait among OS threads")):
+                      ("StopStateImpl_os_ids_equal.cfg", "destructor does not wait among OS threads"),
+                      ("StopStateImpl_mark_after_unlock.cfg", "dequeued entry marked only after the lock was released: "
+                                                              "its destructor returns while request_stop still uses it")):
         r = vlib.model_check("StopStateImpl", cfg, expect_ok=False, timeout=900)
         chk.add_model("StopStateImpl/variant %s: %s (must violate)" % (cfg[14:-4], what), r, note="violated: %s" % r["violated"])
     if chk.thorough():
